@@ -16,6 +16,9 @@ import NngModel.Proofs.Hostile
 import NngModel.Props.C13
 import NngModel.Props.C01
 import NngModel.Props.C16
+import NngModel.Generated.Base
+import NngModel.Generated.C01
+import NngModel.Generated.C11
 namespace Nng.C11
 open Nng Nng.Sp Nng.Hostile Nng.HostileSpec
 open Nng.Generated (maxMaxTtl)
